@@ -38,6 +38,7 @@ var DeployKindNames = map[DeployKind]string{DeployOK: "ok", DeployFail: "fail", 
 type StepScript struct {
 	Deploy          DeployKind
 	DeployMS        int64 // virtual duration of the deployment
+	DeployIgnoreCtx bool  // the deployment does not notice a cancelled context (like the test deployer)
 	Run             RunKind
 	RunMS           int64 // virtual duration of the execution (0: completes as soon as scheduled)
 	CancelMS        int64 // time between cancel signal and cancelled_early
